@@ -106,6 +106,7 @@ def run(ctx, rep):
     hash_length_rule(P, rep, 'R-C04-1l')
     bypass_rule(P, rep, 'R-C04-1b')
     no_inode_in_changed_test_rule(P, rep, 'R-C04-9')
+    rehash_pairing_rule(P, rep, 'R-C04-8p')
     from .carried import carried_flags_rule
     carried_flags_rule(P, rep, 'R-C04-10', only={'state_scrub_process', 'state_check_process', 'state_sync_process', 'repair', 'repair_step'}, min_examined=5)
     # coverage of the percentage plans: the derived limits select exactly the quota (a stripe the plan covers is never skipped)
@@ -657,3 +658,34 @@ def no_inode_in_changed_test_rule(P, rep, rid):
         rep.check(cm.get('inode', 0) == 0, rid, '%s: no inode comparison against the recorded file' % fn, f.file,
                   'members compared: %s' % sorted(cm) if cm.get('inode', 0) == 0 else 'the recorded inode is compared with st_ino: a file with the recorded bytes but a new inode (restored, copied, volatile inodes) is treated as changed since the last sync, its silent errors are reported as expected differences and its stripes are not marked bad',
                   function=fn, construct='inode in the changed-since-sync test')
+
+
+def rehash_pairing_rule(P, rep, rid):
+    """hash migration: in a stripe marked for rehash, sync and scrub compute the hash of every block read with the NEW function into
+    rehandle[j].hash and remember the block in rehandle[j].block; when the stripe is committed the new hashes are stored back and the
+    rehash mark of the stripe is cleared.  The two assignments belong together: a block whose new hash was computed but whose pointer
+    is not recorded (only recorded on some later path, e.g. after its old hash was verified) keeps a hash of the old function in a
+    stripe that no longer says so -- the block can never be validated again and fix rejects the bytes it rebuilds."""
+    rep.rule(rid, 'sync / scrub: wherever the new-function hash of a block is computed into rehandle[j].hash, rehandle[j].block is assigned in the same basic block (no path computes one without the other)', 2)
+    n = 0
+    for fn in ('state_sync_process', 'state_scrub_process'):
+        f = P.fn(fn)
+        rep.analysed(f)
+        sets = [i for i in f.all_insts() if i.op == 'store' and f.expr(i.ops[1]).startswith('&rehandle[') and f.expr(i.ops[1]).endswith('.block') and f.const_of(i.ops[0]) != 0]
+        for c in f.calls('memhash'):
+            if len(c.ops) < 3 or 'rehandle[' not in f.expr(c.ops[2]) or not f.expr(c.ops[2]).rstrip(']0[').endswith('.hash'):
+                continue
+            n += 1
+            same = [s for s in sets if s.block == c.block]
+            ok = bool(same)
+            if not ok and sets:
+                # the assignment may come later, but then on every path from the hash computation to the next disk
+                lp = f.loop_of(c.block)
+                lat = [f.blocks[lp][0]] if lp is not None else []
+                r_ = f.reach([c], stop={s.id for s in sets})
+                ok = bool(lat) and not any(x.id in r_ for x in lat) and not any(x.id in r_ for x in f.returns())
+            rep.check(ok, rid, '%s: memhash(new function -> %s) is paired with rehandle[].block' % (fn, f.expr(c.ops[2])[:40]), c.loc(),
+                      'pointer recorded with the hash' if ok else 'the new hash is computed for every block read in a rehash stripe, but rehandle[].block is assigned only on some of the paths that follow: the other blocks keep the hash of the old function while the stripe loses its rehash mark',
+                      function=fn, construct='rehandle pairing')
+    if n < 2:
+        raise AnalysisBroken('rehash sites not recognised (%d)' % n)
